@@ -284,6 +284,7 @@ fn sample(sink: &QueuingMetricSink, ev: &str) {
 pub fn stress(a: &Args) {
     let seed = a.num("seed", 1);
     let runs = a.num("runs", 10);
+    let long_stall = a.num("stall-ms", 1300);
     let _ = TRACE.set(Arc::new(Trace::create(&a.req("out"))));
     install_tracer(false);
     let mut rng = StdRng::seed_from_u64(seed ^ 0x51ee_0002);
@@ -300,8 +301,11 @@ pub fn stress(a: &Args) {
         let fill_before_last_drop = rng.random_bool(0.5);
         let early_drop_original = rng.random_bool(0.5);
         let with_sampler = rng.random_bool(0.7);
+        // a few runs keep the wrapped sink blocked for more than a second after the last drop
+        let stall_ms: u64 = if run % 17 == 3 || run % 17 == 11 { long_stall } else { 0 };
+        let fill_before_last_drop = fill_before_last_drop || stall_ms > 0;
         let cfg = json!({"run":run,"cap":cap_json(cap),"eh":eh,"producers":nprod,"per":per,"perr":perr,"ppanic":ppanic,
-            "gate_closed_first":gate_closed_first,"slow_us":slow,"fill":fill_before_last_drop,"early_drop":early_drop_original,"sampler":with_sampler});
+            "gate_closed_first":gate_closed_first,"slow_us":slow,"fill":fill_before_last_drop,"stall_ms":stall_ms,"early_drop":early_drop_original,"sampler":with_sampler});
         if run == 0 {
             sample_cfg = cfg.clone();
         }
@@ -426,10 +430,62 @@ pub fn stress(a: &Args) {
             let (s, h) = live.swap_remove(i);
             do_drop(s, h);
         }
+        // a wrapped sink that stays blocked for a while AFTER the last drop (C09: whatever the wrapped sink does,
+        // for every occupancy): the stop marker must still arrive once there is room
+        if fill_before_last_drop && stall_ms > 0 {
+            std::thread::sleep(Duration::from_millis(stall_ms));
+        }
         set_gate(&sh, true);
         let released = wait_until(Duration::from_secs(10), || sh.dropped.load(Ordering::SeqCst));
         let exited = EXITED.load(Ordering::SeqCst) > 0;
         tr().ev(json!({"ev":"end","released":released,"exited":exited}));
+    }
+    // ---- high-contention phases (C15/C08 at quiescence): 8 producers x 20 000 emits on clones of one sink,
+    // nothing logged per event: each producer counts its Ok results, the wrapped sink counts what it is handed
+    let bulk_runs = a.num("bulk", 2);
+    for b in 0..bulk_runs {
+        let cap: Option<usize> = if b % 2 == 0 { None } else { Some(64) };
+        tr().ev(json!({"ev":"reset","cap":cap_json(cap),"eh":false,"run":1000 + b,"bulk":true}));
+        struct CountSink(Arc<AtomicU64>);
+        impl MetricSink for CountSink {
+            fn emit(&self, _m: &str) -> io::Result<usize> {
+                self.0.fetch_add(1, Ordering::SeqCst);
+                Ok(0)
+            }
+        }
+        let handed = Arc::new(AtomicU64::new(0));
+        let sink = match cap {
+            Some(c) => QueuingMetricSink::with_capacity(CountSink(handed.clone()), c),
+            None => QueuingMetricSink::from(CountSink(handed.clone())),
+        };
+        let mut js = vec![];
+        for p in 0..8u64 {
+            tr().ev(json!({"ev":"clone","h":1,"h2":p + 2}));
+            let s = sink.clone();
+            js.push(std::thread::spawn(move || {
+                let mut ok = 0u64;
+                for i in 0..20_000u64 {
+                    if s.emit(if i % 2 == 0 { "b:1|c" } else { "bulk.metric:2|g" }).is_ok() {
+                        ok += 1;
+                    }
+                }
+                (s, ok)
+            }));
+        }
+        let mut okn = 0u64;
+        let mut keep = vec![];
+        for j in js {
+            if let Ok((s, ok)) = j.join() {
+                okn += ok;
+                keep.push(s);
+            }
+        }
+        total_emits += 160_000;
+        wait_until(Duration::from_secs(10), || handed.load(Ordering::SeqCst) >= okn && sink.drained() >= okn);
+        tr().ev(json!({"ev":"bulk","okn":okn,"deln":handed.load(Ordering::SeqCst)}));
+        sample(&sink, "quiesce");
+        drop(keep);
+        drop(sink);
     }
     cadence::verif::install(None);
     tr().finish();
